@@ -126,7 +126,7 @@ func genC08(e *emitter, tier string, seed int64) {
 		"x = 1 < @\n", "x = @ && true\n", "x = true || @\n", "x = @ in [1]\n", "x = 1 in @\n",
 		"l = [1]\nx = l[@]\n", "l = [[1]]\nx = l[0][@]\n", "l = [1]\nl[@] = 2\n", "l = [1]\nl[0] = @\n", "l = [1]\nl[0] += @\n",
 		"l = [1]\nx = l[@:]\n", "l = [1]\nx = l[:@]\n", "l = [1]\nx = l[::@]\n", "l = [1]\nx = l[1:@:2]\n", "l = [1]\nx = l[@:2:1]\n", "l = [1]\nx = l[1:2:@]\n", "l = [1]\nx = l[:@:]\n", "l = [1]\nx = l[@::]\n",
-		"x = len(@)\n", "add_key(k, @)\n", "x = pr(1, @)\n", "x = pr(len(@))\n", "p(a = @)\n", "x += @\n", "x = (@)\n",
+		"l = [1]\na, l[@] = 1, 2\n", "l = [1]\na, l[@] = pr(1)\n", "a, b = 1, @\n", "x = len(@)\n", "add_key(k, @)\n", "x = pr(1, @)\n", "x = pr(len(@))\n", "p(a = @)\n", "x += @\n", "x = (@)\n",
 		"if @ {\n  p(1)\n}\n", "if true {\n  p(1)\n} elif @ {\n  p(2)\n}\n", "if true {\n  x = @\n} else {\n  p(2)\n}\n", "if false {\n  p(1)\n} else {\n  x = @\n}\n",
 		"for i = @; i < 2; i = i + 1 {\n  p(i)\n}\n", "for i = 0; @; i = i + 1 {\n  break\n}\n", "for i = 0; i < 2; i = @ {\n  p(i)\n}\n", "for i = 0; i < 2; i = i + 1 {\n  x = @\n}\n",
 		"for x in @ {\n  p(x)\n}\n", "for x in [1] {\n  y = @\n}\n", "for x in [1] {\n  for y in [@] {\n    p(y)\n  }\n}\n",
@@ -157,6 +157,15 @@ func genC08(e *emitter, tier string, seed int64) {
 			}
 			src := strings.Replace(b, mark, o, 1)
 			emitLoad(e, loadCase{Scripts: []scriptSrc{{"a.p", src}}, Order: []string{"a.p"}}, "inject", strings.ReplaceAll(b, "\n", "; ")+" <= "+o)
+		}
+	}
+	// asymmetric function tables: a name known to the checker table only, or to the call table only
+	for _, src := range []string{"drop_key(k)\n", "x = [len(\"a\")]\nif true {\n  drop_key(k)\n}\n", "p(1)\nuppercase(k)\n", "add_key(k, len(\"ab\"))\n"} {
+		for _, dc := range [][2][]string{{{"drop_key"}, nil}, {nil, {"drop_key"}}, {{"len", "uppercase"}, nil}, {nil, {"len"}}, {{"drop_key"}, {"drop_key"}}} {
+			out := loadV1(loadCase{Scripts: []scriptSrc{{"a.p", src}}, Order: []string{"a.p"}, DropCall: dc[0], DropCheck: dc[1]})
+			out["gen"], out["key"], out["strict"] = "asym-tables", fmt.Sprintf("%q call-%v check-%v", src, dc[0], dc[1]), true
+			e.stat("asym-tables")
+			e.emit(out)
 		}
 	}
 	// random programs (valid and not) through the same comparison
